@@ -1,3 +1,4 @@
+import FluentVerif.Msgpack.Fuel
 import FluentVerif.Bytes
 /-! line-protocol helpers: hex, integers, token lists -/
 namespace FV.Driver
